@@ -177,6 +177,98 @@ def memo(ctx, kind):
     return ctx.__dict__.setdefault('_c02_' + kind, {})
 
 
+# ---- Option / Result combinators with closures ------------------------------------------------
+# each is a `match` on the receiver (one comment per entry); arm 0 = Some/Ok, arm 1 = None/Err:
+COMBINATORS = {
+    'map':            'Some(x) => Some(f(x)),  None => None          (Result: Ok(x) => Ok(f(x)), Err(e) => Err(e))',
+    'and_then':       'Some(x) => f(x),        None => None',
+    'map_or':         'Some(x) => f(x),        None => default       (args: receiver, default, f)',
+    'map_or_else':    'Some(x) => f(x),        None => g()           (args: receiver, g, f)',
+    'unwrap_or_else': 'Some(x) => x,           None => g()',
+    'or_else':        'Some(x) => Some(x),     None => g()',
+}
+SOME = 'std::option::Option::Some'; NONE = 'std::option::Option::None'; OK_ = 'std::result::Result::Ok'
+
+
+def combinator_of(c):
+    if c.item not in COMBINATORS: return None
+    m = re.match(r'std::(option::Option|result::Result)::<', c.name)
+    return (c.item, 'opt' if 'Option' in m.group(1) else 'res') if m else None
+
+
+def _attach(base, fs):
+    if not fs: return base
+    if base[0] == 'place': return ('place', base[1], base[2] + fs) + tuple(base[3:4])
+    if base[0] == 'proj': return ('proj', base[1], base[2] + fs)
+    return ('proj', base, fs)
+
+
+def closure_value(b, clo_operand, arg_trees, sub):
+    """the value a closure returns, as an expression tree over the CALLER's values: the closure body's
+    result with its parameters replaced by arg_trees and its captured variables by what was captured.
+    None if the operand is not a closure created here or its result is not a single expression."""
+    o = clo_operand
+    for _ in range(6):
+        if o['k'] not in ('copy', 'move') or o['pl']['p']: return None
+        ds = whole_defs(b, o['pl']['l'])
+        if len(ds) != 1 or ds[0][0] != 'stmt': return None
+        rv = ds[0][2]['rv']
+        if rv['k'] == 'use': o = rv['ops'][0]; continue
+        if rv['k'] == 'agg' and rv['adt'].startswith('closure:'): break
+        return None
+    else:
+        return None
+    F = getattr(b, 'facts', None)
+    cb = F.bodies.get(rv['adt'][8:]) if F is not None else None
+    if cb is None or cb.argc - 1 != len(arg_trees): return None
+    alts, complete = expr_alts(cb, local_op(0), cap=4)
+    if not complete or len(alts) != 1: return None
+    caps = [sub(x) for x in rv['ops']]
+
+    def subst(e):
+        k = e[0]
+        if k == 'place':
+            l, fs = e[1], list(e[2])
+            if l == 1:
+                if fs and fs[0][1].isdigit() and int(fs[0][1]) < len(caps): return _attach(caps[int(fs[0][1])], fs[1:])
+                return ('local', -1)
+            if 2 <= l <= cb.argc: return _attach(arg_trees[l - 2], fs)
+            return ('local', -1)
+        if k == 'local': return ('local', -1)            # a value internal to the closure: opaque
+        if k == 'call': return ('call', e[1], e[2], [subst(a) for a in e[3]], -1)
+        if k == 'proj': return _attach(subst(e[1]), list(e[2]))
+        if k == 'bin': return ('bin', e[1], subst(e[2]), subst(e[3]))
+        if k in ('un', 'cast'): return (k, e[1], subst(e[2]))
+        if k == 'agg': return ('agg', e[1], [subst(a) for a in e[2]])
+        if k == 'discr': return ('discr', subst(e[1]))
+        return e
+    return subst(alts[0])
+
+
+def combinator_arms(b, c, sub):
+    """[tree of the Some/Ok arm, tree of the None/Err arm] of an Option/Result combinator call, or None"""
+    item, kind = combinator_of(c)
+    recv = sub(c.args[0])
+    payload = _attach(recv, [(SOME if kind == 'opt' else OK_, '0')])
+    none = ('agg', NONE, []) if kind == 'opt' else recv
+    wrap = (lambda t: ('agg', SOME if kind == 'opt' else OK_, [t]))
+    def cl(i, args):
+        return closure_value(b, c.args[i], args, sub) if i < len(c.args) else None
+    if item == 'map':
+        v = cl(1, [payload]); return None if v is None else [wrap(v), none]
+    if item == 'and_then':
+        v = cl(1, [payload]); return None if v is None else [v, none]
+    if item == 'map_or':
+        v = cl(2, [payload]); return None if v is None else [v, sub(c.args[1])]
+    if item == 'map_or_else':
+        v = cl(2, [payload]); g = cl(1, []); return None if v is None or g is None else [v, g]
+    if item == 'unwrap_or_else':
+        g = cl(1, []) if kind == 'opt' else None; return None if g is None else [payload, g]
+    if item == 'or_else':
+        g = cl(1, []) if kind == 'opt' else None; return None if g is None else [recv, g]
+    return None
+
+
 def _expr_env(b, operand, env, multi, depth, stack):
     """T.expr with one difference: a local with several whole-value definitions (the value of an
     `if` / `match` expression, a `let x; if .. {x = a} else {x = b}`) is resolved by `env`
@@ -201,6 +293,15 @@ def _expr_env(b, operand, env, multi, depth, stack):
     if k == 'call':
         c = next((x for x in b.calls if x.bb == bi), None)
         if c is None: return leaf()
+        if combinator_of(c) and depth > 3:
+            # `opt.map(f)` & co. are a `match` written with a closure: fork like one (choice 0 = Some/Ok arm, 1 = the other)
+            arms = combinator_arms(b, c, sub)
+            if arms is not None:
+                key = ('comb', bi)
+                if key not in env:
+                    multi.add(key); return leaf()
+                node = arms[env[key] % 2]
+                return _attach(node, fs)
         node = ('call', c.item, c.name, [sub(a) for a in d['args']], bi)
         return ('proj', node, fs) if fs else node
     rv = d['rv']; kk = rv['k']
@@ -233,8 +334,8 @@ def expr_alts(b, operand, cap=16):
         multi = set()
         e = _expr_env(b, operand, env, multi, 24, frozenset())
         if not multi: out.append(e); continue
-        l = min(multi)
-        for i in range(len(whole_defs(b, l))): work.append({**env, l: i})
+        l = min(multi, key=str)
+        for i in range(2 if isinstance(l, tuple) else len(whole_defs(b, l))): work.append({**env, l: i})
     return out, complete
 
 
@@ -341,6 +442,7 @@ def accum_sites(ctx, b):
       'overwrite'  plain insert not guarded by a lookup: an existing entry for the key is lost"""
     cache = memo(ctx, 'accum')
     if b.name in cache: return cache[b.name]
+    cache[b.name] = []                      # recursion guard (helper calls are followed)
     sites = []
     cm = callmap(b)
 
@@ -404,8 +506,40 @@ def accum_sites(ctx, b):
             if am and any(_closure_has_f64_add(ctx, cl) for cl in ctx.S.slice_operand(b, cm[am[0][4]].args[1]).closures):
                 lc = from_lookup(c.args[0])
                 if lc is not None: site(c.bb, 'add', lc, c.args[1])
+    # a call of a helper that does the merging (a crate function the normal form did not inline because it
+    # exists on the pinned tree, or a local closure used as a helper): `for t in terms { add_into(&mut map, t) }`
+    for c in b.calls:
+        cb = helper_body(ctx, b, c)
+        if cb is None or cb.name == b.name: continue
+        inner = accum_sites(ctx, cb)
+        adds = [x for x in inner if x['kind'] == 'add']
+        if not adds or any(x['kind'] == 'overwrite' for x in inner): continue
+        via = {x['bb'] for x in inner if x['kind'] in ('add', 'insert')}
+        if not T.must_pass(cb, 0, return_blocks(cb), via): continue      # merges on every path through the helper
+        maps = [l for a in c.args for l in ctx.S.slice_operand(b, a).locals if MAP_RE.search(b.locals[l]) and not b.locals[l].lstrip().startswith('&')]
+        sites.append(dict(bb=c.bb, kind='add', key=None, val=None, map=maps[0] if maps else None, inner=(cb, adds), args=c.args))
     cache[b.name] = sites
     return sites
+
+
+def helper_body(ctx, b, c):
+    """body run by a call that may be a merging helper: a crate fn, or a closure created in this body and called directly"""
+    if c.item in ('call', 'call_mut', 'call_once') and re.search(r'ops::Fn(Mut|Once)?\b', c.trait or '') and c.args:
+        cls = ctx.S.slice_operand(b, c.args[0]).closures
+        if len(cls) == 1: return ctx.F.bodies.get(next(iter(cls)))
+        return None
+    cb = ctx.F.bodies.get(c.path) or ctx.F.bodies.get(c.name)
+    return cb if cb is not None and cb.kind in ('fn', 'closure') else None     # a direct closure call is resolved to the closure body
+
+
+def site_reads(ctx, b, s, which, adt, field):
+    """the key / value merged at an add site is built from adt.field — seen at the site, or, for a helper call,
+    inside the helper or in the arguments handed to it"""
+    if s.get('inner'):
+        cb, adds = s['inner']
+        if any(x[which] is not None and ctx.S.slice_operand(cb, x[which]).has_field(adt, field) for x in adds): return True
+        return any(ctx.S.slice_operand(b, a).has_field(adt, field) for a in s['args'])
+    return s[which] is not None and ctx.S.slice_operand(b, s[which]).has_field(adt, field)
 
 
 def loops_of(ctx, b):
@@ -678,6 +812,12 @@ def branches_rules(ctx):
                         a0, a1 = x[3][0], x[3][1]
                         for l, r in ((a0, a1), (a1, a0)):
                             if expr_has_field(l, 'v1::Quadratic', 'linear') and 1 in expr_params(ctx, b, l) and T.strip_wrappers(r)[:3] == ('place', 2, []): okl = True
+            if okv and not okl:
+                # not the value of a recognised store (in-place update through `&mut`, ...): the weaker condition on slices
+                def lin(o): s_ = ctx.S.slice_operand(b, o); return 1 in s_.params and s_.has_field('v1::Quadratic', 'linear')
+                def rhs_(o): return T.strip_wrappers(T.expr(b, o))[:3] == ('place', 2, [])
+                if any(is_ops_call(c) and ops_kind(c.trait) == 'Mul' and len(c.args) == 2 and ((lin(c.args[0]) and rhs_(c.args[1])) or (lin(c.args[1]) and rhs_(c.args[0]))) for c in b.calls):
+                    weakly(ctx, rid, 'T-BRANCHFX', b, '`old linear part * rhs` exists but is not the value of a recognised store to the linear part'); continue
             ctx.check(okv and okl, rid, 'T-BRANCHFX', b.name, 'scalar multiplication does not scale both the quadratic values and the linear part', b.site())
             continue
         if (lhs, op, rhs) == ('v1::Quadratic', 'Add', 'v1::Quadratic'):
@@ -708,9 +848,11 @@ def iter_rules(ctx):
         ctx.fn(b)
         bodies = cone_of(ctx, b)
         acc = field_access(bodies)
-        for a, f in need:
-            ctx.check((a, f) in acc or any(x[1] == f and x[0].endswith(a) for x in acc), R + '/%s/%s' % (ty.lstrip('&').split('::')[-1], f), 'T-COVER', b.name, 'term iterator never reads %s.%s' % (a, f), b.site())
         rs = ctx.S.backslice(b, [0])
+        for a, f in need:
+            read = (a, f) in acc or any(x[1] == f and x[0].endswith(a) for x in acc)
+            ctx.check(read and rs.has_field(a, f), R + '/%s/%s' % (ty.lstrip('&').split('::')[-1], f), 'T-COVER', b.name,
+                      'term iterator never reads %s.%s' % (a, f) if not read else 'the returned term iterator does not depend on %s.%s (it is only read on the side)' % (a, f), b.site())
         restr = sorted({x.item for x in rs.call_objs if x.item in ('take', 'skip', 'step_by', 'take_while', 'skip_while', 'nth')})
         ctx.check(not restr, R + '/%s/all-terms' % ty.lstrip('&').split('::')[-1], 'T-LOOPMUST', b.name, 'iterator drops terms: %s' % restr, b.site())
     b = ctx.F.one('&v1::Function', 'into_iter', trait='IntoIterator')
@@ -946,9 +1088,7 @@ def merge_rule(ctx, b, rid, ty, term_adt, keyf, valf):
             probs.append('terms of operand %s are put into the map without `+=` (duplicates are lost)' % sorted(ps)); continue
         good = True
         for s in adds:
-            kx = ctx.S.slice_operand(b, s['key']) if s['key'] is not None else None
-            vx = ctx.S.slice_operand(b, s['val'])
-            if kx is None or not kx.has_field(term_adt, keyf) or not vx.has_field(term_adt, valf): good = False
+            if not site_reads(ctx, b, s, 'key', term_adt, keyf) or not site_reads(ctx, b, s, 'val', term_adt, valf): good = False
         if not good: probs.append('the merged entry is not (term.%s -> term.%s)' % (keyf, valf)); continue
         covered |= ps
     # delegation to a merging constructor
@@ -985,6 +1125,11 @@ def constant_rule(ctx, b, rid):
             src = result_field_source(ctx, cb, 'v1::Linear', 'constant')
             if src and src[0] == 'param' and src[1] - 1 < len(c.args):
                 verdict = is_sum(T.expr(b, c.args[src[1] - 1]))
+    if verdict is None:
+        # `out.constant = c1 + c2` on a value built elsewhere (field assignment instead of the aggregate)
+        stores = [x for x in field_stores(b, 'v1::Linear', 'constant') if x[1] is not None]
+        if stores and T.must_pass(b, 0, return_blocks(b), {x[0] for x in stores}):
+            verdict = all(is_sum(e) for x in stores for e in store_alts(b, x)[0])
     if verdict is None:
         # not recognised: the weaker condition on the slice of the result's constant
         s = ctx.S.backslice(b, [(0, 'constant')])
@@ -1050,6 +1195,45 @@ def kernel_rules(ctx):
     ctx.floor(R, 9)
 
 
+def sum_rules(ctx):
+    """`impl Sum / Product for X`: the accumulation starts from the identity of the operation (0 / 1) and
+    combines with that operation.  Decided on the constructors of Self that occur in the body, whatever
+    the loop looks like (fold with a fn item, fold with a closure, explicit loop).
+    Found on the pinned tree: `Sum for Linear` started from `Linear::from(0)`, which is `From<u64>` = the
+    variable x0 (fixed by a `fix:` commit, see known_findings.json)."""
+    import json as _json
+    R = 'C02.sum'
+    n = 0
+    for b in sorted(ctx.F.bodies.values(), key=lambda x: x.name):
+        if b.kind != 'fn': continue
+        tr = b.hdr.get('trait') or ''
+        if tr not in ('std::iter::Sum', 'std::iter::Product'): continue
+        if (b.hdr.get('targs') or [None])[0] != b.hdr.get('self'): continue      # Sum<&X> etc. delegate; only Sum<Self>
+        ctx.fn(b)
+        kind = tr.rsplit('::', 1)[1]; selfty = b.hdr.get('self') or '?'
+        ident = 0.0 if kind == 'Sum' else 1.0
+        rid = '%s/%s/%s' % (R, selfty.split('::')[-1], kind)
+        good, bad = [], []
+        for c in b.calls:
+            st = norm_ty(c.self_ty or '')
+            if (c.trait or '').endswith('convert::From') and c.item == 'from' and st == norm_ty(selfty):
+                src = (c.hdr.get('targs') or ['?'])[0]
+                val = T.f64_const(c.args[0]['v']) if c.args and c.args[0]['k'] == 'const' else None
+                (good if (src == 'f64' and val == ident) else bad).append('From<%s>(%s)' % (src, c.args[0].get('v') if c.args and c.args[0]['k'] == 'const' else '?'))
+            elif st == norm_ty(selfty) and c.item in ('zero', 'one', 'default', 'new', 'single_term'):
+                ok = (c.item == 'zero' and kind == 'Sum') or (c.item == 'one' and kind == 'Product') or (c.item == 'default' and kind == 'Sum')
+                (good if ok else bad).append(c.item + '()')
+        ctx.check(bool(good) and not bad, rid + '/starts-from-identity', 'T-CONST', b.name,
+                  'accumulation does not start from the %s of %s: identity constructors %s, other constructors %s' % ('zero' if kind == 'Sum' else 'one', selfty, good, bad), b.site())
+        text = _json.dumps(b.d['blocks'])
+        want, others = ('ops::Add', ('ops::Sub', 'ops::Mul', 'ops::Neg')) if kind == 'Sum' else ('ops::Mul', ('ops::Add', 'ops::Sub', 'ops::Neg'))
+        ctx.check(want in text and not any(o in text for o in others), rid + '/combines-with-the-operation', 'T-DELEG', b.name,
+                  'elements are not combined with %s only' % want, b.site())
+        n += 1
+    ctx.floor(R, 6)
+
+
 def check(ctx):
     impls = op_impls(ctx)
     table_rules(ctx, impls); deleg_rules(ctx, impls); dispatch_rules(ctx); branches_rules(ctx); iter_rules(ctx); keys_rules(ctx); kernel_rules(ctx)
+    sum_rules(ctx)
